@@ -396,6 +396,52 @@ def shrink_c09(case):
 # ---------------------------------------------------------------------------
 # C10: waiting requests on a real Environment
 # ---------------------------------------------------------------------------
+def fit3(cap, use, a):
+    """Does amount a fit into a pool with the given capacity and usage?  True / False when the two natural ways of
+    evaluating it in floating point agree (they always do for exactly representable amounts), None when they do not:
+    then only the library's own reserve_resources() can say, and whatever it says must hold at every site."""
+    f1 = cap - use >= a
+    f2 = use + a <= cap
+    return f1 if f1 == f2 else None
+
+
+def fits3(cap, use, req):
+    res = True
+    for n, a in req.items():
+        if a == 0:
+            continue
+        f = fit3(cap[n], use[n], a)
+        if f is False:
+            return False
+        if f is None:
+            res = None
+    return res
+
+
+def probe_reserve(rm, req):
+    """In a forked child: would a direct reserve_resources(req) succeed right now?"""
+    import os
+    r, w = os.pipe()
+    pid = os.fork()
+    if pid == 0:
+        try:
+            os.close(r)
+            try:
+                ok = rm.reserve_resources(dict(req)) is not None
+            except BaseException:
+                ok = False
+            os.write(w, b'1' if ok else b'0')
+        finally:
+            os._exit(0)
+    os.close(w)
+    data = os.read(r, 16)
+    os.close(r)
+    os.waitpid(pid, 0)
+    if not data:
+        raise HarnessError('reserve probe child died')
+    return data == b'1'
+
+
 class TimedAct:
     def __init__(self, runner, i, op):
         self.runner, self.i, self.op = runner, i, op
@@ -444,7 +490,7 @@ class TimedPoolRunner(core.Hooks):
             if self.called[rid] > 1:
                 self.fail('C10.a', f'callback of request #{rid} invoked {self.called[rid]} times', 'twice')
             for n, a in req.items():
-                if a != 0 and rm.get_resource_capacity(n) - rm.get_resource_usage(n) < a:
+                if a != 0 and fit3(rm.get_resource_capacity(n), rm.get_resource_usage(n), a) is False:
                     self.fail('C10.c', f'callback of request #{rid} {req} invoked although only '
                               f'{rm.get_resource_capacity(n) - rm.get_resource_usage(n)} of {n} is free', 'not_fit')
             if not self.in_scan:
@@ -544,9 +590,16 @@ class TimedPoolRunner(core.Hooks):
         n_new = 0
         holds = [dict(h) for h in self.hold_model]
         waiting = list(self.waiting)
+        self.scan_ambiguous = False
         while i < len(waiting):
             w = waiting[i]
-            fits = all(cap[n] - use[n] >= a for n, a in w['req'].items() if a != 0)
+            fits = fits3(cap, use, w['req'])
+            if fits is None:
+                # rounding decides (amounts that are not exactly representable): no prediction for this pass; the
+                # callbacks that do run are still held to their own clauses (reservable, once, arguments, inside a check)
+                self.scan_ambiguous = True
+                self.bump(self.stats['reach'], 'scan_with_rounding_dependent_fit')
+                return exp
             if fits:
                 exp.append(w['id'])
                 if w['kind'] in ('reserve', 'shared'):
@@ -612,7 +665,7 @@ class TimedPoolRunner(core.Hooks):
                 return x
             if [canon(x) for x in got] == [canon(x) for x in exp]:
                 got = list(exp)
-            if got != exp:
+            if got != exp and not self.scan_ambiguous:
                 missing = [x for x in exp if x not in got]
                 extra = [x for x in got if x not in exp]
                 if extra:
@@ -642,7 +695,17 @@ class TimedPoolRunner(core.Hooks):
     def quiescent(self):
         cap, use = self.model_state()
         for w in self.waiting:
-            if all(cap[n] - use[n] >= a for n, a in w['req'].items() if a != 0):
+            fits = fits3(cap, use, w['req'])
+            if fits is None:
+                # rounding decides: the manager's own direct reserve is the arbiter of "fits"
+                self.bump(self.stats['reach'], 'rounding_dependent_fit_probed')
+                if probe_reserve(self.rm, w['req']):
+                    self.fail('C10.e', f'time advances from {self.env.now} while request #{w["id"]} {w["req"]} is still '
+                              f'waiting although reserve_resources() of the same request succeeds at this moment (free: '
+                              f'{ {n: cap[n] - use[n] for n in w["req"]} }; whether it fits depends on rounding, the two '
+                              f'sites disagree)', 'feasible_waiting_rounding')
+                fits = False
+            if fits:
                 self.fail('C10.e', f'time advances from {self.env.now} while request #{w["id"]} {w["req"]} is '
                           f'still waiting although it fits (free: { {n: cap[n] - use[n] for n in w["req"]} })',
                           'feasible_waiting')
@@ -710,14 +773,17 @@ def gen_c10(rng):
             ops.append({'t': t, 'pr': pr, 'op': 'add', 'res': rng.choice(NAMES),
                         'amt': rng.choice((1, 1, 2, 3, -1, -2, 0))})
     ops.sort(key=lambda o: (o['t'], -o['pr']))
-    if rng.random() < 0.1:
-        # tenths: not exactly representable amounts
-        init = {n: a * 0.1 for n, a in init.items()}
+    if rng.random() < 0.12:
+        # decimal amounts (tenths as a user would write them): not exactly representable, sums round
+        scale = rng.choice((1, 1, 3, 4, 5))       # 0.1 0.2 0.3 ... or 0.3 0.6 0.9 ..., 0.5 1.0 1.5 (exact again)
+        init = {n: a * scale / 10 for n, a in init.items()}
+        if rng.random() < 0.5:
+            init[rng.choice(NAMES)] = rng.choice((1.0, 1.7, 1.2, 2.0, 0.7))
         for o in ops:
             if 'req' in o:
-                o['req'] = {n: a * 0.1 for n, a in o['req'].items()}
+                o['req'] = {n: a * scale / 10 for n, a in o['req'].items()}
             if o['op'] == 'add':
-                o['amt'] = o['amt'] * 0.1
+                o['amt'] = o['amt'] * scale / 10
     plan = [horizon] if rng.random() < 0.7 else [horizon / 2, horizon / 2]
     return {'engine': 'poolsim_timed', 'init': init, 'ops': ops, 'plan': plan, 'tiebreak': core.gen_tiebreak(rng)}
 
